@@ -1921,10 +1921,16 @@ class _BulkORMUpdate(_BulkUDCompileState, UpdateDMLState):
 
             to_evaluate = state.unmodified.intersection(evaluated_keys)
 
-            for key in to_evaluate:
-                if key in dict_:
-                    # only run eval for attributes that are present.
-                    dict_[key] = value_evaluators[key](obj)
+            # only run eval for attributes that are present.  evaluate
+            # every SET expression against the pre-UPDATE values before
+            # assigning any of them, as the database does
+            dict_.update(
+                {
+                    key: value_evaluators[key](obj)
+                    for key in to_evaluate
+                    if key in dict_
+                }
+            )
 
             state.manager.dispatch.refresh(state, None, to_evaluate)
 
